@@ -157,81 +157,143 @@ func Shard(property, name string, bound, shard, shards int, maxExec int64, outco
 	return res
 }
 
-// ShardMain is the worker entry: vcoop shard <property> <harness> <bound> <i> <n> <maxExec>
+type ShardJobResult struct {
+	Harness string      `json:"harness"`
+	Bound   int         `json:"bound"`
+	Skipped bool        `json:"skipped"` // deadline reached before this job started
+	Res     ShardResult `json:"res"`
+}
+
+// ShardMain is the worker entry: vcoop shard <property> <bounds csv> <i> <n> <maxExec> <deadline seconds>
+// One process explores its shard of every harness and every bound (process start-up is expensive).
 func ShardMain(args []string, outcomeOf func(s *coop.Sched) string) {
-	bound, _ := strconv.Atoi(args[2])
-	i, _ := strconv.Atoi(args[3])
-	n, _ := strconv.Atoi(args[4])
-	maxExec, _ := strconv.ParseInt(args[5], 10, 64)
-	r := Shard(args[0], args[1], bound, i, n, maxExec, outcomeOf)
-	json.NewEncoder(os.Stdout).Encode(r)
+	property := args[0]
+	var bounds []int
+	for _, b := range splitCSV(args[1]) {
+		v, _ := strconv.Atoi(b)
+		bounds = append(bounds, v)
+	}
+	i, _ := strconv.Atoi(args[2])
+	n, _ := strconv.Atoi(args[3])
+	maxExec, _ := strconv.ParseInt(args[4], 10, 64)
+	dl, _ := strconv.Atoi(args[5])
+	start := time.Now()
+	var out []ShardJobResult
+	for _, name := range Names(property) {
+		for _, b := range bounds {
+			if time.Since(start) > time.Duration(dl)*time.Second {
+				out = append(out, ShardJobResult{Harness: name, Bound: b, Skipped: true})
+				continue
+			}
+			out = append(out, ShardJobResult{Harness: name, Bound: b, Res: Shard(property, name, b, i, n, maxExec, outcomeOf)})
+		}
+	}
+	json.NewEncoder(os.Stdout).Encode(out)
+}
+
+func splitCSV(s string) []string {
+	var out []string
+	cur := ""
+	for _, c := range s {
+		if c == ',' {
+			out = append(out, cur)
+			cur = ""
+		} else {
+			cur += string(c)
+		}
+	}
+	return append(out, cur)
 }
 
 // Run explores every harness of a property with the iterated preemption bounds and fills the evidence.
 func Run(run *ev.Run, property string, bounds []int, shards int, perShardCap int64, deadline time.Duration) {
 	exe, _ := os.Executable()
-	start := time.Now()
+	bcsv := ""
+	for i, b := range bounds {
+		if i > 0 {
+			bcsv += ","
+		}
+		bcsv += strconv.Itoa(b)
+	}
+	results := make([][]ShardJobResult, shards)
+	errs := make([]error, shards)
+	var wg sync.WaitGroup
+	for i := 0; i < shards; i++ {
+		wg.Add(1)
+		go func(i int) {
+			defer wg.Done()
+			cmd := exec.Command(exe, "shard", property, bcsv, strconv.Itoa(i), strconv.Itoa(shards), strconv.FormatInt(perShardCap, 10), strconv.Itoa(int(deadline.Seconds())))
+			cmd.Env = append(os.Environ(), "GOMAXPROCS=1")
+			cmd.Stderr = os.Stderr
+			out, err := cmd.Output()
+			if err != nil {
+				errs[i] = err
+				return
+			}
+			errs[i] = json.Unmarshal(out, &results[i])
+		}(i)
+	}
+	wg.Wait()
 	exhaustive := true
 	completed := map[string]int{}
+	for i, e := range errs {
+		if e != nil {
+			run.Set(fmt.Sprintf("shard%d.error", i), e.Error())
+			exhaustive = false
+		}
+	}
 	for _, name := range Names(property) {
 		completed[name] = -1
 		for _, b := range bounds {
-			if time.Since(start) > deadline {
-				exhaustive = false
-				break
-			}
-			results := make([]ShardResult, shards)
-			errs := make([]error, shards)
-			var wg sync.WaitGroup
-			for i := 0; i < shards; i++ {
-				wg.Add(1)
-				go func(i int) {
-					defer wg.Done()
-					cmd := exec.Command(exe, "shard", property, name, strconv.Itoa(b), strconv.Itoa(i), strconv.Itoa(shards), strconv.FormatInt(perShardCap, 10))
-					cmd.Env = append(os.Environ(), "GOMAXPROCS=1")
-					cmd.Stderr = os.Stderr
-					out, err := cmd.Output()
-					if err != nil {
-						errs[i] = err
-						return
-					}
-					errs[i] = json.Unmarshal(out, &results[i])
-				}(i)
-			}
-			wg.Wait()
 			var agg coop.Stats
 			outcomes := map[string]int{}
 			inconcl := 0
-			for i, r := range results {
+			skipped := false
+			for i := range results {
 				if errs[i] != nil {
-					run.Set(fmt.Sprintf("%s.b%d.shard%d.error", name, b, i), errs[i].Error())
-					exhaustive = false
 					continue
 				}
-				agg.Executions += r.Stats.Executions
-				agg.Decisions += r.Stats.Decisions
-				agg.Deadlocks += r.Stats.Deadlocks
-				agg.HorizonHits += r.Stats.HorizonHits
-				agg.Diverged += r.Stats.Diverged
-				agg.Capped = agg.Capped || r.Stats.Capped
-				if r.Stats.MaxDecisions > agg.MaxDecisions {
-					agg.MaxDecisions = r.Stats.MaxDecisions
-				}
-				inconcl += r.Inconclusive
-				for k, v := range r.Outcomes {
-					outcomes[k] += v
-				}
-				for _, v := range r.Viol {
-					run.Violate(ev.Violation{Property: property, Key: v.Key, What: v.Harness + ": " + v.What, Replay: v})
+				for _, jr := range results[i] {
+					if jr.Harness != name || jr.Bound != b {
+						continue
+					}
+					if jr.Skipped {
+						skipped = true
+						continue
+					}
+					r := jr.Res
+					agg.Executions += r.Stats.Executions
+					agg.Decisions += r.Stats.Decisions
+					agg.Deadlocks += r.Stats.Deadlocks
+					agg.HorizonHits += r.Stats.HorizonHits
+					agg.Diverged += r.Stats.Diverged
+					agg.Capped = agg.Capped || r.Stats.Capped
+					if r.Stats.MaxDecisions > agg.MaxDecisions {
+						agg.MaxDecisions = r.Stats.MaxDecisions
+					}
+					inconcl += r.Inconclusive
+					for k, v := range r.Outcomes {
+						outcomes[k] += v
+					}
+					for _, v := range r.Viol {
+						run.Violate(ev.Violation{Property: property, Key: v.Harness + "/" + v.Key, What: v.Harness + ": " + v.What, Replay: v})
+					}
 				}
 			}
 			p := fmt.Sprintf("%s.bound%d", name, b)
+			if skipped {
+				run.Set(p+".skipped_deadline", true)
+				exhaustive = false
+				continue
+			}
 			run.Set(p+".executions", agg.Executions)
 			run.Set(p+".decisions", agg.Decisions)
 			run.Set(p+".max_decisions_in_one_execution", agg.MaxDecisions)
 			run.Set(p+".distinct_outcomes", len(outcomes))
 			run.Set(p+".outcomes", outcomes)
-			run.Set(p+".capped", agg.Capped)
+			if agg.Capped {
+				run.Set(p+".capped", true)
+			}
 			if agg.HorizonHits > 0 {
 				run.Set(p+".horizon_hits", agg.HorizonHits)
 			}
@@ -247,7 +309,7 @@ func Run(run *ev.Run, property string, bounds []int, shards int, perShardCap int
 			run.Add("schedules", agg.Executions)
 			if agg.Capped || agg.HorizonHits > 0 || agg.Diverged > 0 {
 				exhaustive = false
-			} else {
+			} else if completed[name] == b-1 || completed[name] == -1 {
 				completed[name] = b
 			}
 		}
